@@ -241,10 +241,12 @@ generic containers of the same contents at every depth, and — through `unwrap`
 a drop (of any depth) or a pointer (not to a struct) with the value it stands for. For this
 relation the standard output layer (`stdOut_respects`), the standard comparisons
 (`opEq_prep_vrel`, `opLt_prep_vrel`, `opContains_prep_vrel`, `equal_prep_repEq`) and every standard
-filter except those that observe the Go representation (`reprFilters`: `uniq`, and the value/debugging
-filters `json`, `inspect`, `type`) respect it (`filterRespects_std`: exactly, all but `sort`,
+filter except those that observe the Go representation (`reprFilters`: the value/debugging
+filters `json`, `inspect`, `type`; `uniq` was one of them until `fixes/nested-drops-resolved`: `uniq_respects`)
+respect it (`filterRespects_std`: exactly, all but `sort`,
 `sort_natural` and `reprFilters`; `filterRespects_std_upto`: up to `unmodelled`, all but `reprFilters`). Drops *inside*
-containers are not covered for the standard configuration: see the counterexamples below. -/
+containers (`d = true`) are covered for the standard OUTPUT layer (`run_stdOut_rep_independent_nested_drops` below)
+and for `uniq` (`uniqKey_repEq`), not yet for the standard comparisons and the other filter bodies. -/
 
 /-- **C18 for the standard configuration** (partial). `allowed` says which filters are registered
 on the engine (`stdPrimsOnly allowed`; with `fun _ => true` it is `stdPrims`). Rendering any
@@ -254,30 +256,31 @@ outside the model).
 
 Full statement wanted: the same for `stdPrims`, with equal results, for `ERel true`. What is missing,
 and why (each with an evaluated counterexample below):
-* `hrepr` — `uniq`, `json`, `inspect` and `type` must not be registered: they do *not* respect the
-  equivalence (`uniq` compares elements by Go interface equality, which sees the element type of a
-  nested slice; `type` prints the Go type; `json`/`inspect` marshal the Go value: a `[]uint8` is
-  base64 text, a `map[any]any` is rejected);
+* `hrepr` — `json`, `inspect` and `type` must not be registered: they do *not* respect the
+  equivalence (`type` prints the Go type; `json`/`inspect` marshal the Go value: a `[]uint8` is
+  base64 text, a `map[any]any` is rejected); `uniq` may be registered since `fixes/nested-drops-resolved`
+  (it compared elements by Go interface equality, which saw the element type of a nested slice);
 * "agree" instead of "equal": a fixed-array needle against an ordered map with a fixed-array key is
   `unmodelled` (`comparableV`) while the generic slice gives `false`; `sort`/`sort_natural` answer
   `unmodelled` for more than 12 elements with ties that differ in their encoding (up to 12 elements —
   Go's insertion sort, modelled exactly — they respect the equivalence exactly:
   `sortWith_rel_short`, `sortNaturalWith_rel_short`);
-* `d = false`: drops nested in containers are exposed by `fmt.Sprint` (printing a map, a string
-  filter applied to an array), and a drop that yields a drop by `values.Equal`. -/
+* `d = false`: the code no longer exposes drops nested in containers (the four deviations are repaired: theorems at
+  the end of this file) and the output layer respects `d = true` (`stdOut_respects t true`); the congruence of
+  `values.Equal` / `Less` / `contains` and of the filter bodies is proved for `d = false` only. -/
 theorem run_std_rep_independent_partial (allowed : Bytes → Bool) (hrepr : ∀ n ∈ reprFilters, allowed n = false)
     (cfg : Cfg) (fs : FS) (fuel : Nat) (src : Bytes) (line : Nat) (env env' : Env)
     (he : ∀ x, ERel false (env.get x) (env'.get x)) :
     RunAgree true (run (stdPrimsOnly allowed) stdOut cfg fs fuel src line env)
       (run (stdPrimsOnly allowed) stdOut cfg fs fuel src line env') := by
-  refine run_rel _ _ cfg fs fuel (stdPrimsOnly_respects allowed ?_) (stdOut_respects true) src line he
+  refine run_rel _ _ cfg fs fuel (stdPrimsOnly_respects allowed ?_) (stdOut_respects true false) src line he
   intro n _ ha
   refine filterRespects_std_upto n (fun hn => ?_)
   rw [hrepr n hn] at ha
   cases ha
 
-/-- **C18 for the standard engine without `uniq`, `json`, `inspect`, `type`** (the filters that observe
-the Go representation): no hypothesis left. Every template, every file system and include depth:
+/-- **C18 for the standard engine without `json`, `inspect`, `type`** (the filters that observe
+the Go representation; `uniq` is on the engine since `fixes/nested-drops-resolved`): no hypothesis left. Every template, every file system and include depth:
 environments that differ in typed vs generic slices, fixed arrays vs slices, typed vs generic maps
 (at any depth), and in drops and pointers around a binding, render to agreeing results. -/
 theorem run_std_rep_independent_without_repr_filters (cfg : Cfg) (fs : FS) (fuel : Nat) (src : Bytes) (line : Nat) (env env' : Env)
@@ -286,9 +289,13 @@ theorem run_std_rep_independent_without_repr_filters (cfg : Cfg) (fs : FS) (fuel
       (run (stdPrimsOnly withoutRepr) stdOut cfg fs fuel src line env') :=
   run_std_rep_independent_partial withoutRepr (fun n hn => by simp [withoutRepr, hn]) cfg fs fuel src line env env' he
 
+/-- `uniq` is covered by the theorem: it respects the equivalence (it is not a `reprFilter` any more) -/
+example : FilterRespects true (ArrF.bn "uniq") := filterRespects_std_upto _ (by decide +kernel)
+example : withoutRepr (ArrF.bn "uniq") = true := by decide +kernel
+
 /-- the output layer respects the equivalence exactly (no `unmodelled` escape) -/
 example (v v' : GoVal) (h : URel false v v') : stdOut.chunks v = stdOut.chunks v' :=
-  ((stdOut_respects false).chunks v v' h).eq
+  ((stdOut_respects false false).chunks v v' h).eq
 
 /-- the hypotheses on the environments are satisfiable: `x` bound to a drop of a pointer to a typed
     slice of fixed arrays, against the generic slice of generic slices -/
@@ -342,6 +349,32 @@ example : stdPrims.contains (.mapSlice [(.array (.int .int) [.int .int 1], .nil)
       = .unmodelled "comparability of an array value" ∧
     stdPrims.contains (.mapSlice [(.array (.int .int) [.int .int 1], .nil)]) (.slice (.int .int) [.int .int 1]) = .ok false := by
   decide +kernel
+
+/-! ## Drops nested in containers (`d = true`): the standard OUTPUT layer respects them
+
+Since `fixes/nested-drops-resolved` the printing side of the whole-template theorem holds for the relation WITH
+drops nested in containers: `stdOut_respects t true` (`Proofs/RepEqStd.lean`; `writeChunksL_norm`, `sprintR_norm`
+for every `d`). What remains for the standard engine with `d = true` is the comparison/filter layer
+(`PrimsRespect true true stdPrims`): `values.Equal` / `Less` / `contains` and the filter bodies on values with
+nested drops, which are proved for `d = false` only (`stdPrimsOnly_respects`); `uniq` identifies elements that
+differ in nested drops already (`ArrF.uniqKey_repEq`, for every `d`). -/
+
+/-- **C18 with nested drops, standard printing.** For every comparison/filter layer that respects the
+equivalence with drops nested in containers, the STANDARD output layer (`writeObject`: arrays element by element,
+maps and structs through `fmt.Sprint(values.ResolveDrops(·))`) and every template: two environments whose bindings
+differ in typed vs generic containers and in drops at ANY depth of arrays and maps render to the same result. -/
+theorem run_stdOut_rep_independent_nested_drops (P : Prims) (hP : PrimsRespect false true P)
+    (cfg : Cfg) (fs : FS) (fuel : Nat) (src : Bytes) (line : Nat) (env env' : Env)
+    (he : ∀ x, ERel true (env.get x) (env'.get x)) :
+    run P stdOut cfg fs fuel src line env = run P stdOut cfg fs fuel src line env' :=
+  run_rep_independent true P stdOut hP (stdOut_respects false true) cfg fs fuel src line env env' he
+
+/-- the standard output layer writes a value with drops nested at every depth (in an array in a map in an array,
+    a drop of a drop) exactly as its generic twin -/
+example : stdOut.chunks (.slice (.map .str .any) [.map .str .any [(.str [97], .drop (.slice (.int .int) [.drop (.drop (.int .int 1))]))]])
+    = stdOut.chunks (.slice .any [.map .str .any [(.str [97], .slice .any [.int .int 1])]]) :=
+  ((stdOut_respects false true).chunks _ _ ⟨by simp [Unw, unwrap], by simp [Unw, unwrap],
+    by simp [RepEq, norm, normList, normKVs, dropRigid, isRec, cyclesOf]⟩).eq
 
 /-! ## The four deviations repaired by `fixes/nested-drops-resolved` (DESIGN 7.1b)
 
